@@ -216,8 +216,9 @@ fn residual_new_case<const NP: usize, const NQ: usize, const NR: usize>() -> boo
 }
 
 //@ prop: C18
+//@ tier: thorough
 //@ drives: Residual::new, Residual::from_parts, Residual::verify, find_max, wrapping_sum
-//@ bound: partition order / block size / warm-up length free over all of usize; slice lengths (Rice parameters, quotients, remainders) = (1,2,2); every parameter, quotient and remainder value
+//@ bound: (thorough tier: never finished inside the 10-min quick cap - the 64-lane reductions of from_parts with free usize shape arguments) partition order / block size / warm-up length free over all of usize; slice lengths (Rice parameters, quotients, remainders) = (1,2,2); every parameter, quotient and remainder value
 //@ asserts: never panics; Ok(r) implies r.verify() is Ok, the stored fields equal the arguments, and r is well-formed (partition order <= 15, 2^order parameters all <= 14, lengths == block size, block divisible, warm-up within the first partition and zero-padded, remainders below 2^parameter, cached quotient sum exact) - the predicate under which c08_residual_* prove bits written == count_bits()
 //@ stubs: alloc::fmt::format -> empty string
 #[kani::proof]
@@ -231,8 +232,9 @@ fn c18_residual_new_consistent() {
 
 //@ prop: C18
 //@ also: C08
+//@ tier: thorough
 //@ drives: Residual::new, Residual::from_parts, Residual::verify, find_max, wrapping_sum
-//@ bound: partition order / block size / warm-up length free over all of usize; slice lengths (Rice parameters, quotients, remainders) = (2,4,4): the consistent shape with TWO partitions (warm-up lengths 0..=4 against a first partition of 2 samples); every parameter, quotient and remainder value
+//@ bound: (thorough tier, as c18_residual_new_consistent) partition order / block size / warm-up length free over all of usize; slice lengths (Rice parameters, quotients, remainders) = (2,4,4): the consistent shape with TWO partitions (warm-up lengths 0..=4 against a first partition of 2 samples); every parameter, quotient and remainder value
 //@ asserts: as c18_residual_new_consistent (in particular: an accepted warm-up lies within the first partition, which is what count_bits() and the parser assume)
 //@ stubs: alloc::fmt::format -> empty string
 #[kani::proof]
@@ -241,6 +243,41 @@ fn c18_residual_new_consistent() {
 fn c18_residual_new_two_partitions() {
     let ok = residual_new_case::<2, 4, 4>();
     kani::cover!(ok);
+    kani::cover!(!ok);
+}
+
+//@ prop: C18
+//@ also: C08
+//@ drives: Residual::new, Residual::from_parts, Residual::verify (consistent two-partition shape with CONCRETE order and block size, so that the quick tier has an accepting path)
+//@ bound: partition order 1, block size 4 (two partitions of 2 samples), warm-up length free in 0..=5, two arbitrary Rice parameters, every quotient and remainder value
+//@ asserts: never panics; Ok(r) implies r.verify() is Ok and r is well-formed - in particular an accepted warm-up lies within the first partition (<= 2), which is what count_bits() and the parser assume
+//@ stubs: alloc::fmt::format -> empty string
+#[kani::proof]
+#[kani::unwind(70)]
+#[kani::stub(alloc::fmt::format, fmt_stub)]
+fn c18_residual_new_two_partitions_concrete_shape() {
+    let warmup: usize = kani::any();
+    kani::assume(warmup <= 5);
+    let ps: [u8; 2] = kani::any();
+    let qs: [u32; 4] = kani::any();
+    let rs: [u32; 4] = kani::any();
+    let ok = match Residual::new(1, 4, warmup, &ps, &qs, &rs) {
+        Ok(r) => {
+            let v = r.verify();
+            let vok = v.is_ok();
+            std::mem::forget(v);
+            assert!(vok);
+            assert!(warmup <= 2);
+            assert!(valid_residual(&r));
+            std::mem::forget(r);
+            true
+        }
+        Err(e) => {
+            std::mem::forget(e);
+            false
+        }
+    };
+    kani::cover!(ok && warmup == 2);
     kani::cover!(!ok);
 }
 
